@@ -76,7 +76,7 @@ def concretize(model, nondets, literals):
         if k == "atom" and n in model:
             codes.add(int(model[n]))
     for name, args, v in ufs:
-        if name in ("trim", "cat", "toupper", "tolower", "quote", "trimprefix", "trimsuffix", "replaceall"):
+        if name in ("trim", "cat", "toupper", "tolower", "quote", "trimprefix", "trimsuffix", "replaceall", "strlen", "containsany", "contains", "hasprefix", "hassuffix"):
             for a in args:
                 try:
                     codes.add(int(a))
@@ -119,6 +119,40 @@ def concretize(model, nondets, literals):
             gaps[i] = r + 1
             strs[c] = fresh_for(c, r)
             info["fresh_atoms"][str(c)] = strs[c]
+    # honour string-predicate facts of the model on fresh atoms
+    for name, args, v in ufs:
+        try:
+            c = int(args[0])
+        except (ValueError, IndexError):
+            continue
+        if c in code2lit or c in forced or c not in strs:
+            continue
+        if name in ("containsany", "contains", "hasprefix", "hassuffix") and v == "true" and len(args) == 2:
+            try:
+                lit = code2lit.get(int(args[1]))
+            except ValueError:
+                lit = None
+            if not lit:
+                continue
+            piece = lit[0] if name == "containsany" else lit
+            if name == "hasprefix":
+                strs[c] = piece + strs[c]
+            elif name == "hassuffix":
+                strs[c] = strs[c] + piece
+            else:
+                core = strs[c].strip(" ")
+                strs[c] = strs[c].replace(core, core + piece + "z", 1) if core else strs[c] + piece + "z"
+    for name, args, v in ufs:
+        if name == "strlen":
+            try:
+                c, n = int(args[0]), int(v)
+            except ValueError:
+                continue
+            if c in strs and c not in code2lit and c not in forced and len(strs[c].encode()) < n <= 200000:
+                core = strs[c].strip(" ")
+                pad = "x" * (n - len(strs[c].encode()))
+                strs[c] = strs[c].replace(core, core + pad, 1) if core else strs[c] + pad
+
     # honour trim facts where the model says trimming changes the string
     ws = 0
     for c, t in trim.items():
